@@ -49,7 +49,7 @@ var forceDrought = false
 
 func rrSeries(r *rand.Rand, T int) (rain, pet []float64, style string) {
 	rain, pet = make([]float64, T), make([]float64, T)
-	style = []string{"mixed", "dry-spells", "storms", "drizzle", "no-pet", "wet", "wet-then-drought"}[r.Intn(7)]
+	style = []string{"mixed", "dry-spells", "storms", "drizzle", "no-pet", "wet", "wet-then-drought", "storm-pairs"}[r.Intn(8)]
 	if forceDrought {
 		style = "wet-then-drought"
 	}
@@ -75,6 +75,18 @@ func rrSeries(r *rand.Rand, T int) (rain, pet []float64, style string) {
 				rain[t] = 100 + r.Float64()*400
 			} else if r.Intn(2) == 0 {
 				rain[t] = r.ExpFloat64() * 5
+			}
+		case "storm-pairs": // two extreme days in a row (the second falls on saturated ground), then a dry spell
+			if dry > 0 {
+				dry--
+				if dry == 12 {
+					rain[t] = 90 + r.Float64()*150
+				}
+			} else if r.Intn(4) == 0 {
+				rain[t] = 90 + r.Float64()*150
+				dry = 13
+			} else if r.Intn(3) == 0 {
+				rain[t] = r.ExpFloat64() * 4
 			}
 		case "drizzle":
 			rain[t] = r.Float64() * 2
@@ -147,9 +159,32 @@ func rrlawsEngine(args []string) error {
 					mc.PVals[pi][0][0] = rg.hi - (rg.hi-rg.lo)*0.1*r.Float64()
 				}
 			}
+			// the far corners: every capacity-like parameter in the lowest tenth of its range and every fraction in the highest
+			// tenth (even cases) or at either end (odd cases) -- "nearly everything moves on, hardly any room", the regime in
+			// which a share computed from the wrong base takes more water than there is
+			if c%5 == 3 && name != "GR4J" {
+				variant = "far-corner"
+				for pi, p := range desc.Parameters {
+					if len(p.Dimensions) > 0 {
+						continue
+					}
+					rg := paramRange(name, p)
+					hi := rg.hi - (rg.hi-rg.lo)*0.1*r.Float64()
+					lo := rg.lo + (rg.hi-rg.lo)*0.1*r.Float64()
+					if rg.lo >= 0 && rg.hi <= 1 {
+						if (c/5)%2 == 0 || r.Intn(2) == 0 {
+							mc.PVals[pi][0][0] = hi
+						} else {
+							mc.PVals[pi][0][0] = lo
+						}
+					} else {
+						mc.PVals[pi][0][0] = lo
+					}
+				}
+			}
 			// rate constants and fractions whose default is small (recession ratios, percolation shares): log-uniform over
 			// [default/20, 1] in half of the cases -- a uniform draw over [0,1] hardly ever gives a slow store
-			if c%2 == 0 {
+			if c%2 == 0 && variant != "far-corner" {
 				for pi, p := range desc.Parameters {
 					if len(p.Dimensions) == 0 && p.Range[0] == 0 && p.Range[1] == 1 && p.Default > 0 && p.Default <= 0.1 {
 						if _, cur := curated[name][p.Name]; !cur {
